@@ -109,7 +109,7 @@ def match_entry(ctx) -> None:
             app_ok = len(apps) == 1 and core.src(apps[0].args[0]) == f'source[{col}]'
             for r in [r for r in ast.walk(lp) if isinstance(r, ast.Return)]:
                 gs = cfg.cguards(r, fn.node)
-                if (f'{col} not in source', True) in gs and core.src(r.value) in ('(False, None)',):
+                if cfg.cg((f'{col} not in source', True))[0] in gs and core.src(r.value) in ('(False, None)',):
                     absent_ok = True
                     if apps:
                         ast_if = next(a for a in core.ancestors(r) if isinstance(a, ast.If))
@@ -121,7 +121,7 @@ def match_entry(ctx) -> None:
     ident = [r for r in core.walk_local(fn.node) if isinstance(r, ast.Return) and core.src(r.value) == '(True, None)']
     ctx.check(all(any(core.src(t) == 'identical' and pol for t, pol in cfg.guards(r, fn.node, siblings=False)) for r in ident), 'C15.order', fn, 'indices are omitted only for identical schemas', fn.node, key='identical')
     ids = [s for s in ast.walk(fn.node) if isinstance(s, ast.Assign) and core.src(s.targets[0]) == 'identical' and core.is_const(s.value, False)]
-    ctx.check(all(('identical and supply != demand', True) in cfg.cguards(s, fn.node) or ('supply != demand', True) in cfg.cguards(s, fn.node) for s in ids) and bool(ids), 'C15.order', fn, 'identical is dropped as soon as one position differs', fn.node, key='identical:cond')
+    ctx.check(all(cfg.cg(('supply != demand', True))[0] in cfg.cguards(s, fn.node) for s in ids) and bool(ids), 'C15.order', fn, 'identical is dropped as soon as one position differs', fn.node, key='identical:cond')
 
 
 def cast(ctx) -> None:
